@@ -217,7 +217,7 @@ func init() {
 	register(&Prop{
 		ID: "C02", QuickBudget: 25 * time.Minute, ThoroughBudget: 90 * time.Minute,
 		Functions: []string{"generated (*T).Write / Read / ReadFieldN / writeFieldN / IsSetX / CountSetFields for every struct-like of the corpus", "apache thrift v0.13.0 TBinaryProtocol + TMemoryBuffer (interpreted)", "reference codec zzEnc/zzDec (harness)"},
-		Bounds:    "corpus a.thrift (7 struct-likes: all base types x requiredness, defaults, enums, typedefs, negative and >255 field ids, containers nested 2 deep, recursive struct, union, exception); every scalar leaf symbolic (full width), optional presence symbolic (in the perturbation harnesses the first 2 (unknown field) or 4 (retag/missing) presence decisions of a value are symbolic, the rest alternate), strings/binaries and every container of length n (quick n in 0..1, thorough 0..2), recursion depth 1; struct elements with defaulted optional members inside lists, sets and maps; unknown field: free i16 id, 11 wire types, every insertion position; retag / deletion of every declared field; union with 0 and 2 members; generator configurations: default, presentation-only options, naming_style golint/apache, keep_unknown_fields, enum_as_int_32",
+		Bounds:    "corpus a.thrift (7 struct-likes: all base types x requiredness, defaults, enums, typedefs, negative and >255 field ids, containers nested 2 deep, recursive struct, union, exception); every scalar leaf symbolic (full width), optional presence symbolic (in the perturbation harnesses the first 2 (unknown field) or 4 (retag/missing) presence decisions of a value are symbolic, the rest alternate), strings/binaries and every container of length n (quick n in 0..1, thorough 0..2), recursion depth 1; struct elements with defaulted optional members inside lists, sets and maps; a second corpus (ext-shapes: defaults of the remaining base types, enums inside containers, containers nested 4 deep, map of maps of lists of structs, field ids 32767 and -32768) for the write/read harnesses; unknown field: free i16 id, 11 wire types, every insertion position; retag / deletion of every declared field; union with 0 and 2 members; generator configurations: default, presentation-only options, naming_style golint/apache, keep_unknown_fields, enum_as_int_32",
 		Assumptions: []string{"the programs dimension is the designed corpus (sampled), only values and perturbations are solver-decided", "value domain: required/default struct fields non-nil, union has exactly one arm (except in the refusal harness), set elements pairwise different",
 			"the Go identifier of an IDL name is its capitalised form (corpus naming)", "compact/JSON protocols are outside"},
 		Variants: []*Prop{
@@ -226,6 +226,7 @@ func init() {
 			genVariant("golint", "naming_style=golint", genOpts{}, "zzgen/a", entryC02, c02WriteRead),
 			genVariant("apache", "naming_style=apache", genOpts{}, "zzgen/a", entryC02, c02WriteRead),
 			genVariant("keep_unknown_fields", "keep_unknown_fields", genOpts{}, "zzgen/a", entryC02, c02WriteRead),
+			genVariantCorpus("ext-shapes", "", genOpts{}, "zzgen/a", entryC02, c02WriteRead, corpusExt),
 			genVariant("enum_as_int_32", "enum_as_int_32", genOpts{EnumAsInt32: true}, "zzgen/a", entryC02, c02WriteRead),
 		},
 	})
@@ -519,12 +520,23 @@ func init() {
 	register(&Prop{
 		ID: "C10", QuickBudget: 25 * time.Minute, ThoroughBudget: 90 * time.Minute,
 		Functions:   []string{"generated BLength / FastAppend / FastWrite / FastWriteNocopy / FastRead (k-*.go) and the standard Read/Write of the fastgo backend", "cloudwego/gopkg v0.2.0 protocol/thrift BinaryProtocol (interpreted; Skip replaced by a safe-Go model with the same contract)", "reference codec (harness)"},
-		Bounds:      "corpus a.thrift under -g fastgo; values as in C02 (n<=1 quick, <=2 thorough); robustness on 3 (thorough 8) fixed pseudo-random values per struct-like: every truncation point of the reference encoding; every type byte (field header, STOP, list/set element type, map key/value type) replaced by a FREE byte; unknown / retagged / deleted field agreement with the standard Read (first 4 presence decisions symbolic); ANY subset of the required fields missing (all 2^14 subsets of the 14 required fields of Many, 2^9 of Nine)",
+		Bounds:      "corpus a.thrift under -g fastgo (plus the ext-shapes corpus: defaults of the remaining base types, enums inside containers, containers nested 4 deep, map of maps of lists of structs, field ids 32767 and -32768; round trips and truncation only); values as in C02 (n<=1 quick, <=2 thorough); robustness on 3 (thorough 8) fixed pseudo-random values per struct-like: every truncation point of the reference encoding; every type byte (field header, STOP, list/set element type, map key/value type) replaced by a FREE byte; unknown / retagged / deleted field agreement with the standard Read (first 4 presence decisions symbolic); ANY subset of the required fields missing (all 2^14 subsets of the 14 required fields of Many, 2^9 of Nine)",
 		Assumptions: []string{"gopkg's BinaryProtocol.Skip (raw pointer walk) is replaced by the safe-Go model /verif/harness/gencommon/zzskip (a defect inside Skip itself would be invisible, its over-run behaviour is mirrored)", "an allocation with a symbolic size >= 2^24 ends the path (reported as tolerated 'hugealloc', only in the corruption harness)", "the programs dimension is the designed corpus"},
 		Variants: []*Prop{
 			{Label: "fastgo", Pkg: "zzgen/a", NoOverlay: true, Diff: []string{"D_GEN_roundtrip"}, Prepare: func(r *runner) error {
 				prog := corpusMain()
 				r.spec.Harnesses = c10Harnesses(prog)
+				return prepareGenerated(r, prog, genConfig{Backend: "fastgo"}, entryC10)
+			}},
+			{Label: "ext-shapes", Pkg: "zzgen/a", NoOverlay: true, Diff: []string{"D_GEN_roundtrip"}, Prepare: func(r *runner) error {
+				prog := corpusExt()
+				var hs []Harness
+				for _, h := range c10Harnesses(prog) {
+					if strings.HasPrefix(h.Func, "H_C10_append_") || strings.HasPrefix(h.Func, "H_C10_fastread_") || strings.HasPrefix(h.Func, "H_C10_trunc_") {
+						hs = append(hs, h)
+					}
+				}
+				r.spec.Harnesses = hs
 				return prepareGenerated(r, prog, genConfig{Backend: "fastgo"}, entryC10)
 			}},
 		},
